@@ -4,6 +4,7 @@
 package c13
 
 import (
+	"sync/atomic"
 	"bytes"
 	"context"
 	"encoding/hex"
@@ -382,6 +383,8 @@ var surfaces = map[string]func(int, []byte) surfaceResult{
 	"client": surfClientHandshake, "text": surfText, "cryptostate": surfCryptoState, "cryptoblob": surfCryptoBlob, "sharedport": surfSharedPort,
 }
 
+var spinSeen int32
+
 // check runs one input through one surface under the C13 oracle.
 func check(surface string, mode int, data []byte, planted bool) string {
 	f := surfaces[surface]
@@ -397,12 +400,19 @@ func check(surface string, mode int, data []byte, planted bool) string {
 	run := func(limit time.Duration) kit.Outcome {
 		return kit.Guard(limit, func() { res = f(mode, data) })
 	}
-	o := run(4 * time.Second)
+	// a decoder that spins never returns; one that is merely starved by a busy machine does. Only the former
+	// is a violation, so ONE execution is given a generous limit (a second execution beside a still-running
+	// first one would also be charged with its allocations).
+	if atomic.LoadInt32(&spinSeen) != 0 {
+		return "" // a spinning decoder has been reported by this process: every further case would only wait out the limit
+	}
+	o := run(25 * time.Second)
 	if o.TimedOut {
-		o = run(8 * time.Second)
-		if o.TimedOut {
-			return fmt.Sprintf("surface %s mode %d: decoder did not return within 8 s on a %d-byte input (spin / unbounded loop)", surface, mode, len(data))
-		}
+		atomic.StoreInt32(&spinSeen, 1)
+		return fmt.Sprintf("surface %s mode %d: decoder did not return within 25 s on a %d-byte input (spin / unbounded loop)", surface, mode, len(data))
+	}
+	if o.Elapsed > 4*time.Second {
+		ev.Class("slow-under-load")
 	}
 	nt := planted || res.reads >= 2
 	k := ""
